@@ -47,7 +47,7 @@ def _same_extent(ext_impl, ext_model, exact, scale):
     return all(abs(Fraction(float(a)) - b) <= Fraction(1, 10 ** 9) * scale for a, b in zip(ext_impl, ext_model))
 
 
-def check_chain(ctx, area, chain, exact, suite):
+def check_chain(ctx, area, chain, exact, suite, site="AreaDefinition.__getitem__", klass=None):
     """apply `chain` (list of (yslice, xslice)) to the real area; compare with the model and the numpy oracle"""
     xs0, ys0 = area.get_proj_vectors()
     xs, ys = xs0, ys0
@@ -70,6 +70,8 @@ def check_chain(ctx, area, chain, exact, suite):
         n_h, n_w = yhi - ylo, xhi - xlo
     inp = {"extent": [float(v) for v in area.area_extent], "shape": [area.height, area.width],
            "chain": [[_sl(a), _sl(b)] for a, b in chain]}
+    if klass:
+        inp["class"] = klass
     if ctx.M:
         rep = ctx.M.ask("slice", *_g(area), len(chain), *[v for a, b in chain for v in _sl(a) + _sl(b)])
     else:
@@ -90,7 +92,7 @@ def check_chain(ctx, area, chain, exact, suite):
     if tuple(cur.crop_offset) != tuple(off):
         probs.append(f"crop_offset {tuple(cur.crop_offset)} is not the cumulative offset {tuple(off)}")
     if probs:
-        ctx.fail("AreaDefinition.__getitem__", "; ".join(probs), inp,
+        ctx.fail(site, "; ".join(probs), inp,
                  {"extent": [float(v) for v in cur.area_extent], "shape": list(cur.shape), "crop_offset": list(cur.crop_offset)},
                  size=len(chain) * 10 + area.height + area.width)
     # --- model
@@ -150,6 +152,75 @@ def suite_slices(ctx):
                 break
             h, w = yhi - ylo, xhi - xlo
         check_chain(ctx, area, chain, exact, "slice.chains")
+
+
+def _area_future(proj, w, h, ext, attrs=None):
+    from pyresample.future.geometry import AreaDefinition
+    with warnings.catch_warnings():
+        warnings.simplefilter("ignore")
+        return AreaDefinition(proj, (h, w), ext, attrs=attrs)
+
+
+def _random_chain(r, H, W, length):
+    """chain of `length` unit-step slice pairs, biased towards non-empty selections that do not start at (0, 0)"""
+    chain = []
+    h, w = H, W
+    for _k in range(length):
+        ys = slice(r.choice(_bounds(h)), r.choice(_bounds(h)))
+        xs = slice(r.choice(_bounds(w)), r.choice(_bounds(w)))
+        if r.random() < 0.75:
+            a = r.randrange(0, h); ys = slice(r.choice([a, a - h, None if a == 0 else a]), r.choice([None, r.randrange(a + 1, h + 1), h + 2]))
+            c = r.randrange(0, w); xs = slice(r.choice([c, c - w, None if c == 0 else c]), r.choice([None, r.randrange(c + 1, w + 1), w + 2]))
+        chain.append((ys, xs))
+        ylo, yhi, _ = ys.indices(h)
+        xlo, xhi, _ = xs.indices(w)
+        if not (ylo < yhi and xlo < xhi):
+            break
+        h, w = yhi - ylo, xhi - xlo
+    return chain
+
+
+def suite_slices_future(ctx):
+    """the same slicing laws (shape, coordinates, cumulative crop_offset, composition) for the `pyresample.future.geometry`
+    AreaDefinition class: single slices on both axes at once (small scope) and chains of 1-3 slices on grids of several CRSs"""
+    site = "future.geometry.AreaDefinition.__getitem__"
+    r = ctx.rng
+    nmax = 3 if ctx.quick else 4
+    for H in range(1, nmax + 1):
+        for W in range(1, nmax + 1):
+            area = _area_future(LL, W, H, (-8.0, 16.0, -8.0 + W * 0.5, 16.0 + H * 0.25), attrs={"name": "f"})
+            ybs = [(a, b) for a, b in itertools.product(_bounds(H), repeat=2)]
+            xbs = [(a, b) for a, b in itertools.product(_bounds(W), repeat=2)]
+            ybs_ne = [p for p in ybs if slice(*p).indices(H)[0] < slice(*p).indices(H)[1]]
+            xbs_ne = [p for p in xbs if slice(*p).indices(W)[0] < slice(*p).indices(W)[1]]
+            pairs = list(itertools.product(ybs_ne, xbs_ne))         # selections of >= 1 row and column
+            empty = [p for p in itertools.product(ybs, xbs) if p[0] not in ybs_ne or p[1] not in xbs_ne]
+            if ctx.quick:
+                pairs = r.sample(pairs, min(len(pairs), 70))
+            pairs += r.sample(empty, 6)                             # what the model says about empty selections
+            for (a, b), (c, d) in pairs:
+                check_chain(ctx, area, [(slice(a, b), slice(c, d))], True, "slice.future.small", site=site, klass="future")
+    ctx.exhaustive["slice.future.small"] = (f"future AreaDefinition: all shapes <= {nmax}x{nmax} x slice(a,b) x slice(c,d), bounds None or [-(n+2), n+2]"
+                                            + (" (70 non-empty selections sampled per shape)" if ctx.quick else ""))
+    stere = {"proj": "stere", "lat_0": 50.0, "lat_ts": 50.0, "lon_0": 8.0, "a": 6378144.0, "b": 6356759.0}
+    laea = {"proj": "laea", "lat_0": 50, "lon_0": 10, "ellps": "WGS84"}
+    for _ in range(250 if ctx.quick else 2500):
+        H, W = r.randrange(2, 20), r.randrange(2, 20)
+        kind = r.choice(["exact", "exact", "laea", "stere", "flipped"])
+        attrs = r.choice([None, {"name": "f"}, {"name": "f", "description": "d", "proj_id": "p"}])
+        if kind == "exact":
+            area, exact = _area_future(LL, W, H, (-8.0, 16.0, -8.0 + W * 0.5, 16.0 + H * 0.25), attrs), True
+        elif kind == "flipped":
+            # geostationary-style orientation: x and y both run max -> min (dyadic pixel sizes: exact class)
+            area, exact = _area_future(LL, W, H, (-8.0 + W * 0.5, 16.0 + H * 0.25, -8.0, 16.0), attrs), True
+        elif kind == "laea":
+            x0, y0 = r.uniform(-3e6, 3e6), r.uniform(-3e6, 6e6)
+            area, exact = _area_future(laea, W, H, (x0, y0, x0 + W * r.uniform(10, 5000), y0 + H * r.uniform(10, 5000)), attrs), False
+        else:
+            area, exact = _area_future(stere, W, H, (-1370912.72, -909968.64, 1029087.28, 1490031.36), attrs), False
+        chain = _random_chain(r, H, W, r.choice([1, 1, 2, 3]))
+        check_chain(ctx, area, chain, exact, "slice.future.chains", site=site, klass="future")
+        ctx.count("slice.future." + kind)
 
 
 def suite_split_concat(ctx):
@@ -383,8 +454,104 @@ def suite_swath(ctx):
         ctx.case("swath", (H, W, kind, str(inp["slices"])), nontrivial=sl.size > 0, sample={"input": inp})
 
 
+def _full_spellings(n):
+    """slices that select a whole axis of length n, in every spelling"""
+    return [slice(None), slice(None), slice(0, n), slice(0, None), slice(None, n), slice(-n, None), slice(-n - 2, n + 2), slice(None, n + 1)]
+
+
+def suite_coord_histories(ctx):
+    """histories on the legacy lon/lat definitions (SwathDefinition, GridDefinition, CoordinateDefinition): slicing (every spelling of
+    "everything" included), in-place append(), concatenate(), copy(), in any order, on any of the objects made so far.  A numpy shadow
+    is kept for every object: slicing gives the slice of the arrays, append changes the object it is called on and nothing else,
+    exactly as `b = a[ys, xs]; b = np.concatenate((b, c))` never changes `a`.  After every step every object alive is compared with
+    its shadow (values, shape) and sliced once more."""
+    import dask.array as da
+    from pyresample.geometry import CoordinateDefinition, GridDefinition, SwathDefinition
+    r = ctx.rng
+    classes = {"SwathDefinition": SwathDefinition, "GridDefinition": GridDefinition, "CoordinateDefinition": CoordinateDefinition}
+
+    def coords(k, w):
+        return (np.array([[r.uniform(-180, 180) for _ in range(w)] for _ in range(k)]).reshape(k, w),
+                np.array([[r.uniform(-90, 90) for _ in range(w)] for _ in range(k)]).reshape(k, w))
+
+    for _ in range(300 if ctx.quick else 3000):
+        cname = r.choice(["SwathDefinition", "SwathDefinition", "GridDefinition", "CoordinateDefinition"])
+        klass = classes[cname]
+        kind = r.choice(["numpy", "numpy", "dask"])
+
+        def wrap(a):
+            return da.from_array(a, chunks=2) if kind == "dask" else a.copy()
+        H, W = r.randrange(1, 7), r.randrange(1, 6)
+        lo, la = coords(H, W)
+        with warnings.catch_warnings():
+            warnings.simplefilter("ignore")
+            objs = [[klass(wrap(lo), wrap(la)), lo, la]]          # [definition, shadow lons, shadow lats]
+        hist = []
+        site = None
+        bad = None
+        n_steps = r.randrange(2, 7)
+        for step in range(n_steps):
+            k = r.randrange(len(objs)) if step != 1 or r.random() < 0.3 else len(objs) - 1
+            obj, slo, sla = objs[k]
+            h, w = slo.shape
+            op = "slice" if step == 0 else r.choice(["slice", "append", "append", "concatenate", "copy"])
+            if op == "copy" and not hasattr(obj, "copy"):
+                op = "concatenate"
+            with warnings.catch_warnings():
+                warnings.simplefilter("ignore")
+                if op == "slice":
+                    if r.random() < 0.5:
+                        ys, xs = r.choice(_full_spellings(h)), r.choice(_full_spellings(w))
+                    else:
+                        a = r.randrange(0, h); c = r.randrange(0, w)
+                        ys = slice(r.choice([a, a - h, None if a == 0 else a]), r.choice([None, r.randrange(a + 1, h + 1), h + 2]))
+                        xs = r.choice([slice(None), slice(r.choice([c, c - w]), r.choice([None, r.randrange(c + 1, w + 1)]))])
+                    objs.append([obj[ys, xs], slo[ys, xs], sla[ys, xs]])
+                    hist.append(f"#{len(objs) - 1} = #{k}[{_sl(ys)[0]}:{_sl(ys)[1]}, {_sl(xs)[0]}:{_sl(xs)[1]}]")
+                    site = f"{cname}.__getitem__"
+                elif op in ("append", "concatenate"):
+                    g_lo, g_la = coords(r.randrange(0, 3), w)
+                    other = klass(wrap(g_lo), wrap(g_la))
+                    n_lo, n_la = np.concatenate((slo, g_lo)), np.concatenate((sla, g_la))
+                    if op == "append":
+                        obj.append(other)
+                        objs[k][1], objs[k][2] = n_lo, n_la
+                        hist.append(f"#{k}.append({g_lo.shape[0]} rows)")
+                    else:
+                        objs.append([obj.concatenate(other), n_lo, n_la])
+                        hist.append(f"#{len(objs) - 1} = #{k}.concatenate({g_lo.shape[0]} rows)")
+                    site = f"CoordinateDefinition.{op}"
+                else:
+                    objs.append([obj.copy(), slo, sla])
+                    hist.append(f"#{len(objs) - 1} = #{k}.copy()")
+                    site = f"{cname}.copy"
+                # every object alive against its shadow
+                for j, (o, s_lo, s_la) in enumerate(objs):
+                    g_lo_, g_la_ = np.asarray(o.lons), np.asarray(o.lats)
+                    if tuple(o.shape) != s_lo.shape or g_lo_.shape != s_lo.shape or not (np.array_equal(g_lo_, s_lo) and np.array_equal(g_la_, s_la)):
+                        bad = (j, f"shape {tuple(o.shape)} / coordinates differ from the arrays numpy gives for the same history ({s_lo.shape})")
+                        break
+                    if s_lo.shape[0] > 1:
+                        again = o[slice(1, None), slice(None)]
+                        if not (np.array_equal(np.asarray(again.lons), s_lo[1:, :]) and np.array_equal(np.asarray(again.lats), s_la[1:, :])):
+                            bad = (j, "slicing it again ([1:, :]) does not give that slice of its coordinate arrays")
+                            break
+            if bad:
+                break
+        inp = {"class": cname, "arrays": kind, "shape": [H, W], "history": hist}
+        if bad:
+            ctx.fail(site, f"after this history object #{bad[0]}: {bad[1]}" + (" (it was not the object operated on)" if f"#{bad[0]}" not in hist[-1].split("=")[0] else ""),
+                     inp, {"object": bad[0], "shape": list(objs[bad[0]][0].shape), "lons": np.asarray(objs[bad[0]][0].lons).tolist(),
+                           "numpy_lons": objs[bad[0]][1].tolist()}, tags={"history": True}, size=len(hist) * 5 + H + W)
+        aliasing = any(".append(" in h_ for h_ in hist[1:]) and len(objs) > 1
+        ctx.case("coord.history", (cname, kind, H, W, str(hist), float(lo[0, 0])), nontrivial=aliasing, sample={"input": inp} if aliasing else None)
+        ctx.count("coord.history." + cname)
+
+
 def run(ctx):
     suite_slices(ctx)
     suite_split_concat(ctx)
     suite_seam_paths(ctx)
     suite_swath(ctx)
+    suite_coord_histories(ctx)
+    suite_slices_future(ctx)
